@@ -168,7 +168,9 @@ impl VmStateIterator {
             memory: self.chiplets.get_mem_state_at(ctx, self.clk),
         });
 
-        self.clk -= 1;
+        // the state at clock 0 is reported when the direction is reversed there; the clock counter
+        // must not go below it
+        self.clk = self.clk.saturating_sub(1);
 
         result
     }
